@@ -26,7 +26,8 @@ RULE = ('(a) every token sequence of length 1..3 (thorough: 4) over a 44-token a
         '(unbalanced bracket, dangling/unknown operator, ORDER BY position out of range or misplaced, non-numeric LIMIT, '
         'unknown format, no column, uninterpretable regex/date/boolean/function argument, also after the same text was used '
         'by another operator; multi-byte literals in all three quoting styles; NaN/inf sort keys with LIMIT); (c) every scalar function x argument-kind vectors of arity 0..3; (d) argv flags of main. '
-        'non-trivial = the run did not end with status 0')
+        'non-trivial = the run did not end with status 0'
+        '; (e) standard streams that cannot be written (/dev/full, pipe without reader) x 12 argument vectors; 22 TZ strings x 6 date queries; a 1200-deep chain of directories; chains inside brackets inside chains (3, 6, 20 levels x 998 terms); ignore files that include themselves; bad literals on the side of AND/OR that no entry evaluates')
 MC_NOTE = ('states = token sequences explored breadth-first by length, transitions = append-token edges; every state is '
            'executed on the real parser/searcher (batch hook = the crate\'s own exec_search) and every flagged state plus a '
            'deterministic stratum is re-validated on the fresh CLI binary')
